@@ -21,6 +21,11 @@ Coq resolver vs Python resolver). Property = oracle vs real code:
     on programs whose variables are all initialised;
   - end to end: the binary displays exactly those CS0001 / CS0002 findings
     (stdout of `--verbose`, locations from the SARIF file).
+Domain of the comparison theorems (Spec.ScopeSpec.branch_closed): the extracted
+predicate must hold on the projection of every parsed case, and programs with
+a bare declaration as loop body / branch must be rejected by the parser.
+`gen` regenerates coq/gen/SsaKey.v (the key of the SSA version maps) from the
+text of ssa_impl.rs (lib/props/c10key.py).
 """
 import json
 import os
